@@ -438,12 +438,12 @@ theorem lines_run (recurse : List Char → St → Except CErr (St × Nat)) (optU
 
 /-- A chronological chunk `c` appended while `already` grew from `a` to `a'`: it only speaks about targets
 whose *cleaned* name was not in `a` and is in `a'`, a cleaned name is spoken for under one spelling only, and for
-every target it shows nothing or that target's log once. -/
+every target it shows nothing or that target's log (its lines after ungluing) once. -/
 structure GoodChunk (F : Forest) (a : List (List Char)) (c : List Tagged) (a' : List (List Char)) : Prop where
   sub : a ⊆ a'
   tags : ∀ e ∈ c, normpath e.tag ∉ a ∧ normpath e.tag ∈ a'
   uniq : ∀ e1 ∈ c, ∀ e2 ∈ c, normpath e1.tag = normpath e2.tag → e1.tag = e2.tag
-  raws : ∀ y, rawsOf y c = [] ∨ ∃ ls, lookup F (normpath y) = some (some ls) ∧ rawsOf y c = rawLines ls
+  raws : ∀ y, rawsOf y c = [] ∨ ∃ ls, lookup F (normpath y) = some (some ls) ∧ rawsOf y c = rawLines (unglue ls)
 
 theorem GoodChunk.nil (F : Forest) {a a' : List (List Char)} (h : a ⊆ a') : GoodChunk F a [] a' :=
   ⟨h, fun _ he => (by cases he), fun _ he => (by cases he), fun _ => Or.inl rfl⟩
@@ -572,7 +572,7 @@ theorem lookup_mem {F : Forest} {t : List Char} {v : Option (List (List Char))} 
 
 /-- The line loop of `t`, entered with the cleaned name of `t` just added to `already`, appends a good chunk. -/
 theorem LoopChunk.good {F : Forest} {t : List Char} {ls : List (List Char)} {a a' : List (List Char)}
-    {c : List Tagged} (h : LoopChunk F t ls (normpath t :: a) c a') (hl : lookup F (normpath t) = some (some ls))
+    {c : List Tagged} (h : LoopChunk F t (unglue ls) (normpath t :: a) c a') (hl : lookup F (normpath t) = some (some ls))
     (hta : normpath t ∉ a) : GoodChunk F a c a' := by
   have hsub : a ⊆ a' := fun _ hx => h.others.sub (List.mem_cons_of_mem _ hx)
   have hta' : normpath t ∈ a' := h.others.sub (List.mem_cons_self ..)
@@ -636,12 +636,12 @@ theorem catlog_already {F : Forest} {optU optR : Bool} {fuel : Nat} {t : List Ch
     (h : normpath t ∈ st.already) : catlog F optU optR (fuel + 1) t st = .ok (st, 0) := by
   rw [catlog, if_pos h]
 
-/-- A successful replay of a target with a log is the line loop over that log. -/
+/-- A successful replay of a target with a log is the line loop over the lines of that log after ungluing. -/
 theorem catlog_run {F : Forest} {optU optR : Bool} {fuel : Nat} {t : List Char} {st st' : St} {n : Nat}
     {ls : List (List Char)} (h : catlog F optU optR fuel t st = .ok (st', n)) (ht : normpath t ∉ st.already)
     (hl : lookup F (normpath t) = some (some ls)) :
     ∃ fuel', fuel = fuel' + 1 ∧
-      Run (catlog F optU optR fuel') t ls { st with already := normpath t :: st.already } st' := by
+      Run (catlog F optU optR fuel') t (unglue ls) { st with already := normpath t :: st.already } st' := by
   cases fuel with
   | zero => rw [catlog] at h; cases h
   | succ fuel' =>
@@ -711,7 +711,7 @@ theorem catlog_foreign {F : Forest} {optU optR : Bool} {fuel : Nat} {t : List Ch
 
 theorem catlog_raws {F : Forest} {optU optR : Bool} {fuel : Nat} {t : List Char} {st st' : St} {n : Nat}
     {ls : List (List Char)} (h : catlog F optU optR fuel t st = .ok (st', n)) (ht : normpath t ∉ st.already)
-    (hl : lookup F (normpath t) = some (some ls)) : rawsOf t (newOut st st') = rawLines ls := by
+    (hl : lookup F (normpath t) = some (some ls)) : rawsOf t (newOut st st') = rawLines (unglue ls) := by
   obtain ⟨f, hf, hrun⟩ := catlog_run h ht hl
   obtain ⟨c, hc, hloop⟩ := run_chunk (catlog_good F optU optR f) (List.mem_cons_self ..) hrun
   have hc' : st'.out = c.reverse ++ st.out := hc
@@ -738,7 +738,7 @@ theorem GoodChunk.once_per_cleaned {F : Forest} {a a' : List (List Char)} {c : L
 and nothing or its log once; and two spellings of one cleaned name are never both shown. -/
 def InvSt (F : Forest) (st : St) : Prop :=
   (∀ y, (normpath y ∉ st.already → rawsOf y st.out.reverse = []) ∧
-    (rawsOf y st.out.reverse = [] ∨ ∃ ls, lookup F (normpath y) = some (some ls) ∧ rawsOf y st.out.reverse = rawLines ls)) ∧
+    (rawsOf y st.out.reverse = [] ∨ ∃ ls, lookup F (normpath y) = some (some ls) ∧ rawsOf y st.out.reverse = rawLines (unglue ls))) ∧
   ∀ x y, x ≠ y → normpath x = normpath y → rawsOf x st.out.reverse = [] ∨ rawsOf y st.out.reverse = []
 
 theorem InvSt.init (F : Forest) (a : List (List Char)) : InvSt F ⟨a, []⟩ :=
@@ -929,7 +929,7 @@ theorem catlog_fuel_succ (F : Forest) (optU optR : Bool) :
       | some v =>
         cases v with
         | none => left; rfl
-        | some ls => exact lines_congr (catlog_fuel_succ F optU optR fuel) optU optR x ls _ 0 0
+        | some ls => exact lines_congr (catlog_fuel_succ F optU optR fuel) optU optR x (unglue ls) _ 0 0
 
 /-- More fuel never changes a result that is not `outOfFuel` (successes and the other errors alike). -/
 theorem catlog_fuel_mono {F : Forest} {optU optR : Bool} {fuel : Nat} {t : List Char} {st : St}
@@ -1092,7 +1092,7 @@ theorem isRawLine_iff (l : List Char) :
 /-- The first command-line target of a run from the empty state is shown completely. -/
 theorem redoLog_first {F : Forest} {optU optR : Bool} {fuel : Nat} {t : List Char} {ts : List (List Char)}
     {st' : St} {ls : List (List Char)} (h : redoLog F optU optR fuel (t :: ts) ⟨[], []⟩ = .ok st')
-    (hl : lookup F (normpath t) = some (some ls)) : rawsOf t st'.out.reverse = rawLines ls := by
+    (hl : lookup F (normpath t) = some (some ls)) : rawsOf t st'.out.reverse = rawLines (unglue ls) := by
   rw [redoLog] at h
   generalize hc : catlog F optU optR fuel t (emit ⟨[], []⟩ [] (.record kDo (normpath t))) = r at h
   cases r with
